@@ -7,7 +7,7 @@ def _structural(chk):
     from . import assign
     from .. import assign_replay, tlc
     sizes = assign.SIZES[chk.tier]
-    for shape in ("call", "seq"):
+    for shape in ("call", "seq", "pos"):
         ts_mc, ts, st, keep = sizes[shape]
         res = tlc.run_tlc("MC_Assign", "Assign_%s.cfg" % shape, workers=16, timeout=3000,
                           extra_files={"run.cfg": assign._cfg(shape, ["C05"], {"Mode": "mc", "TStride": ts_mc, "Offset": chk.seed % ts_mc})})
